@@ -457,6 +457,117 @@ def _lexer_fn(F, suffix):
     return c[0]
 
 
+def _param_index(h, node):
+    """Index (in h['params']) of the parameter the local `node` denotes: the parameter itself, or the `let p = p;` copy an
+    async fn makes of it. None if it is something else."""
+    n = strip(node)
+    if not isinstance(n, dict) or n.get('k') != 'local':
+        return None
+    ids = [p.get('id') if p.get('k') == 'bind' else None for p in h['params']]
+    if n.get('id') in ids:
+        return ids.index(n['id'])
+    for x in H.walk(h['body']):
+        if x.get('k') == 'block':
+            for st in x.get('stmts') or []:
+                if st.get('k') == 'let' and st['pat'].get('k') == 'bind' and st['pat'].get('id') == n.get('id') and \
+                        not str(st['pat'].get('mode', '')).endswith('Mut)'):
+                    i = strip(st.get('init'))
+                    if isinstance(i, dict) and i.get('k') == 'local' and i.get('id') in ids:
+                        return ids.index(i['id'])
+    return None
+
+
+def _find_text_match_deep(F, fn, adt):
+    """find_text_match, seeing through ONE private synchronous helper of the same module: when fn has no char match producing
+    `adt` itself, the match is looked for in the non-public same-module functions fn calls, provided the helper matches on
+    one of its own parameters and fn passes one of ITS parameters (the symbol it was dispatched with) in that position.
+    Returns (matches, hir of the function that holds them)."""
+    from facts import same_module_private
+    ms, h = find_text_match(F, fn, adt)
+    if ms:
+        return ms, h
+    accept = same_module_private(F, fn)
+    out, oh = [], h
+    seen = set()
+    for c in H.calls(h['body']):
+        callee = c.get('def')
+        if not callee or callee == fn or callee in seen or callee not in F.hir or not accept(callee) or F.is_async(callee):
+            continue
+        seen.add(callee)
+        hh = F.hir[callee]
+        hms, _ = find_text_match(F, callee, adt)
+        for m in hms:
+            pi = _param_index(hh, m['scrut'])
+            if pi is None:
+                continue
+            # every call of the helper in fn hands over a parameter of fn
+            sites = [x for x in H.calls(h['body'], [callee])]
+            def arg_ok(x):
+                a = ([x['recv']] if x.get('k') == 'mcall' else []) + list(x['a'])
+                return pi < len(a) and _param_index(h, a[pi]) is not None
+            if all(arg_ok(x) for x in sites):
+                out.append(m)
+                oh = hh
+    return out, oh
+
+
+def _bool_selections(F, body, adt):
+    """Places where a bool selects between two variants of `adt`: `if c {A} else {B}` and `match c {true => A, false|_ => B}`
+    (either arm order). Returns [(cond node, variant on true, variant on false)]."""
+    out = []
+    for x in H.walk(body):
+        if x.get('k') == 'if' and variant_of(x.get('t'), adt) and variant_of(x.get('f'), adt):
+            out.append((x['c'], variant_of(x['t'], adt), variant_of(x['f'], adt)))
+        elif x.get('k') == 'match' and x.get('sty') == 'bool' and len(x['arms']) == 2 and \
+                all(a.get('guard') is None and variant_of(a['body'], adt) for a in x['arms']):
+            first = pat_lits(x['arms'][0]['pat'])
+            second = pat_lits(x['arms'][1]['pat'])
+            if first in ([True], [False]) and (second is None or second == [not first[0]]):
+                vs = {first[0]: variant_of(x['arms'][0]['body'], adt), (not first[0]): variant_of(x['arms'][1]['body'], adt)}
+                out.append((x['scrut'], vs[True], vs[False]))
+    return out
+
+
+def _let_init(h, node):
+    """The initialiser of the immutable `let` that binds the local `node` (else the node itself)."""
+    n = strip(node)
+    if isinstance(n, dict) and n.get('k') == 'local':
+        for x in H.walk(h['body']):
+            if x.get('k') == 'block':
+                for st in x.get('stmts') or []:
+                    if st.get('k') == 'let' and st['pat'].get('k') == 'bind' and st['pat'].get('id') == n.get('id') and \
+                            not str(st['pat'].get('mode', '')).endswith('Mut)') and st.get('init') is not None:
+                        return st['init']
+    return node
+
+
+def _char_pat(p):
+    """A pattern over the peeked character, given as `char` or `Option<char>`: (literals | None (catch-all) | 'opaque',
+    names bound to the character). `Some(<p>)` is read as <p>; `None` matches no character ([])."""
+    k = p.get('k')
+    if k == 'ptuplestruct':
+        if (p.get('p') or {}).get('def') == 'core::option::Option::Some' and len(p.get('sub') or []) == 1:
+            return _char_pat(p['sub'][0])
+        return 'opaque', set()
+    if k == 'pexpr' and p['e'].get('k') == 'path' and p['e'].get('def') == 'core::option::Option::None':
+        return [], set()
+    if k == 'bind':
+        if p.get('sub'):
+            lits, names = _char_pat(p['sub'])
+            return lits, names | {p.get('name')}
+        return None, {p.get('name')}
+    if k == 'por':
+        out, names = [], None
+        for a in p['alts']:
+            v, n = _char_pat(a)
+            if v is None or v == 'opaque':
+                return v, set()
+            out.extend(v)
+            names = n if names is None else (names & n)
+        return out, names or set()
+    return pat_lits(p), set()
+
+
 @RS.rule('C06.R1d', 'K-TABLE', 'SwitchAction / SwitchCondition / TrimSide: Display and the modifier lexer are inverses; dispatch = table keys')
 def r1d(cx):
     F = cx.F
@@ -464,18 +575,22 @@ def r1d(cx):
     tfn = _lexer_fn(F, 'trim')
     dispatch_fn = _lexer_fn(F, 'suffix_modifier')
     dh = F.hir_of(dispatch_fn)
-    # dispatch: which characters go to which lexer
+    # dispatch: which characters go to which lexer. The match is over the peeked character, either unwrapped first
+    # (`if let Some(symbol) = .. { match symbol {..} }`) or as the Option itself (`match next { Some(symbol @ ('+' | ..)) => ..`).
     disp = {}
-    dms = [m for m in H.matches_in(dh['body']) if m.get('sty') == 'char']
+    dms = [m for m in H.matches_in(dh['body']) if m.get('sty') in ('char', 'core::option::Option<char>')
+           and any(H.calls(a['body'], [sfn, tfn]) for a in m['arms'])]
     cx.require(len(dms) == 1, 'suffix_modifier: expected one match over the peeked char')
     for arm in dms[0]['arms']:
-        lits = pat_lits(arm['pat'])
+        lits, bound = _char_pat(arm['pat'])
+        if arm.get('guard') is not None and H.calls(arm['body'], [sfn, tfn]):
+            cx.require(False, 'suffix_modifier: a dispatching arm has a guard')
         callee = None
         for c in H.calls(arm['body'], [sfn, tfn]):
             callee = c.get('def')
-            scr = strip(dms[0]['scrut']).get('name')
+            scr = strip(dms[0]['scrut']).get('name') if dms[0].get('sty') == 'char' else None
             passed = [strip(a).get('name') for a in c['a']]
-            if scr not in passed:
+            if not (({scr} | bound) - {None}) & set(passed):
                 cx.violation(dispatch_fn, 'dispatch-arg', 'the matched character is not the symbol passed to %s' % callee.split('::')[-1],
                              loc=loc_of(dh, arm))
         if callee and isinstance(lits, list):
@@ -486,8 +601,10 @@ def r1d(cx):
         cx.fn(dfn)
         cx.fn(lexfn)
         d, m, ph = printer_table(cx, F, dfn, adt)
-        ms, qh = find_text_match(F, lexfn, adt)
+        ms, qh = _find_text_match_deep(F, lexfn, adt)
         cx.require(len(ms) == 1, '%s: expected one char match producing %s' % (lexfn, adt_name))
+        if qh['fn'] != lexfn:
+            cx.fn(qh['fn'])
         tab = text_table(ms[0], adt)
         keys = [x for lits, g, var, arm in tab if isinstance(lits, list) and var for x in lits]
         for v, s in sorted(d.items()):
@@ -517,15 +634,15 @@ def r1d(cx):
     cx.fn(dfn)
     d, m, ph = printer_table(cx, F, dfn, adt)
     sh = F.hir_of(sfn)
-    ifs = [x for x in H.walk(sh['body']) if x.get('k') == 'if' and variant_of(x.get('t'), adt) and variant_of(x.get('f'), adt)]
+    ifs = _bool_selections(F, sh['body'], adt)
     cx.require(len(ifs) == 1, 'switch(): expected one `if` selecting the SwitchCondition')
-    cond = strip(ifs[0]['c'])
+    cond = strip(ifs[0][0])
     cx.require(cond.get('k') == 'local', 'switch(): the SwitchCondition test is not a plain flag')
     flag = cond['name']
     pnames = [p.get('name') for p in sh['params']]
     cx.require(flag in pnames, 'switch(): flag %s is not a parameter' % flag)
     idx = pnames.index(flag) - 1          # method call arguments exclude self
-    on_true, on_false = H.short(variant_of(ifs[0]['t'], adt)), H.short(variant_of(ifs[0]['f'], adt))
+    on_true, on_false = H.short(ifs[0][1]), H.short(ifs[0][2])
     # the flag at the call site: `let colon = self.skip_if(|c| c == LIT)`
     calls = H.calls(dh['body'], [sfn])
     cx.require(len(calls) == 1, 'suffix_modifier: expected one call of switch')
@@ -553,15 +670,18 @@ def r1d(cx):
     # TrimLength: doubled symbol
     th = F.hir_of(tfn)
     tl = SYN + 'TrimLength'
-    ifs = [x for x in H.walk(th['body']) if x.get('k') == 'if' and variant_of(x.get('t'), tl) and variant_of(x.get('f'), tl)]
+    ifs = _bool_selections(F, th['body'], tl)
     cx.require(len(ifs) == 1, 'trim(): expected one `if` selecting the TrimLength')
     tdisp = impl_fn(F, SYN + 'Trim', DISPLAY, 'fmt')
     cx.fn(tdisp)
     ttab, tm = H.fn_match_table(F, tdisp, tl)
     twice = {v: len(H.calls(body, [re.compile(r'Display.*::fmt$')])) for v, (i, body) in ttab.items()}
-    on_true = H.short(variant_of(ifs[0]['t'], tl))
-    on_false = H.short(variant_of(ifs[0]['f'], tl))
-    has_skip = bool(H.calls(ifs[0]['c'], [re.compile(r'::skip_if$')]))
+    on_true = H.short(ifs[0][1])
+    on_false = H.short(ifs[0][2])
+    # the test is the skip_if itself or an immutable flag initialised with it (`let is_doubled = self.skip_if(..).await?;`)
+    tcond = strip(_let_init(th, ifs[0][0]))
+    has_skip = tcond.get('k') == 'mcall' and bool(H.calls(tcond, [re.compile(r'::skip_if$')])) and \
+        H.callee_matches(tcond, [re.compile(r'::skip_if$')])
     cx.site('trim length: second symbol -> %s, none -> %s; Display repeats side: %s' % (on_true, on_false, twice))
     cx.cellcount(2)
     if not (has_skip and twice.get(on_true) == 1 and twice.get(on_false) == 0):
@@ -1133,13 +1253,50 @@ def r4(cx):
         for blk, t in b.calls():
             if any(_PANIC.search(n) for n in Q.callee_names(t)):
                 counts.setdefault(b.fn, []).append(b.loc(t))
-    for fn, locs in sorted(counts.items()):
-        cx.site('%s: %d explicit panic/assert site(s)' % (fn, len(locs)))
-        cx.fn(fn)
+    def reviewed(fn):
         mx = None
         for pat, n in PANIC_OK.items():
             if _re.search(pat, fn):
                 mx = n
+        return mx
+
+    # A block of a reviewed function extracted into a private helper of the same module keeps the review of that function:
+    # a non-public function whose EVERY caller is a reviewed function of its module is counted with each of them (the sites
+    # of the helper and of the caller together must not exceed the reviewed number). The guards that make the reviewed
+    # constructs safe are decided by the rules that own them, which follow the helper (R1d for the modifier tables).
+    from facts import same_module_private
+    adopted = {}                       # helper body fn -> [reviewed caller body fn]
+    for fn in sorted(counts):
+        if reviewed(fn) is not None:
+            continue
+        root = F.bodies[fn].root
+        sig = F.fns.get(root)
+        if sig is None or sig.get('vis') == 'pub':
+            continue
+        callers = {b.fn for b, blk, t in F.callers_of(lambda names, t: root in names) if b.root != root}
+        # the helper must be called, not handed around as a value
+        as_value = any(o.get('fn') == root for b in F.bodies_in(['yash_syntax::']) for _, _, st in b.stmts()
+                       if st['k'] == 'assign' for o in Q.rvalue_operands(st['rv']) if isinstance(o, dict)) or \
+            any(isinstance(a, dict) and a.get('fn') == root for b in F.bodies_in(['yash_syntax::']) for _, t in b.calls() for a in t['a'])
+        if callers and not as_value and all(reviewed(c) is not None and same_module_private(F, F.bodies[c].root)(root) for c in callers):
+            adopted[fn] = sorted(callers)
+    extra = {}
+    for fn, owners in adopted.items():
+        for o in owners:
+            extra.setdefault(o, []).extend(counts[fn])
+    for fn, locs in sorted(counts.items()):
+        cx.site('%s: %d explicit panic/assert site(s)' % (fn, len(locs)))
+        cx.fn(fn)
+        if fn in adopted:
+            for o in adopted[fn]:
+                total = len(counts.get(o, [])) + len(extra[o])
+                cx.site('%s: counted with the reviewed sites of %s (private helper called from reviewed functions only): %d in total'
+                        % (fn, o, total))
+                if total > reviewed(o):
+                    cx.violation(o, 'panic-site-count', '%d explicit panic sites (with the private helper %s), %d reviewed'
+                                 % (total, fn.split('::')[-1], reviewed(o)), loc=locs[-1])
+            continue
+        mx = reviewed(fn)
         if mx is None:
             cx.violation(fn, 'panic-site', 'unreviewed panic!/unreachable!/assert! in the parser (%d site(s)): the parser must answer every '
                          'input with a tree or a syntax error' % len(locs), loc=locs[0])
